@@ -53,10 +53,10 @@ func Verif_C07_collision_resolution() {
 	e := c07Setup(d)
 	verifAssert("both-sent-open", e.out.wroteOpenFirst() && e.in.wroteOpenFirst())
 	first := verifChoose("first-to-openconfirm", 2)
-	second := other(first)
-	e.conn(first).send(openMessageType, e.openBody())
+	second := verifOtherDir(first)
+	e.conn(first).send(verifMsgOpen, e.openBody())
 	verifQuiesce()
-	e.conn(second).send(openMessageType, e.openBody())
+	e.conn(second).send(verifMsgOpen, e.openBody())
 	verifQuiesce()
 	localDominant := verifOr(e.cfg.localID > e.remoteID, verifAnd(e.cfg.localID == e.remoteID, e.cfg.localAS > e.cfg.remoteAS))
 	// survivor: the connection initiated by the dominant speaker = out iff local dominant
@@ -76,7 +76,7 @@ func Verif_C07_collision_resolution() {
 		verifCover("remote-dominant-" + c07ord(first))
 	}
 	// the survivor establishes on the remote's KEEPALIVE
-	surv.send(keepAliveMessageType, nil)
+	surv.send(verifMsgKeepalive, nil)
 	verifQuiesce()
 	verifAssert("survivor-established", e.pl.nEstab == 1 && e.pl.nClose == 0)
 	verifAssert("survivor-still-untouched", !surv.closed && len(surv.writes) == 2)
@@ -101,9 +101,9 @@ func Verif_C07_established_wins() {
 	verifNote("one connection completes OPEN+KEEPALIVE (Established) while the other is still in OpenSent; then the other's OPEN arrives: the Established one is kept regardless of identifiers")
 	e := c07Setup(2)
 	first := verifChoose("established-first", 2)
-	second := other(first)
-	e.conn(first).send(openMessageType, e.openBody())
-	e.conn(first).send(keepAliveMessageType, nil)
+	second := verifOtherDir(first)
+	e.conn(first).send(verifMsgOpen, e.openBody())
+	e.conn(first).send(verifMsgKeepalive, nil)
 	verifQuiesce()
 	verifAssert("first-established", e.pl.nEstab == 1)
 	verifAssert("other-closed-when-first-established", e.conn(second).closed)
@@ -124,11 +124,11 @@ func Verif_C07_collision_race() {
 	}
 	e := c07Setup(d)
 	first := verifChoose("first-to-openconfirm", 2)
-	second := other(first)
-	e.conn(first).send(openMessageType, e.openBody())
+	second := verifOtherDir(first)
+	e.conn(first).send(verifMsgOpen, e.openBody())
 	verifQuiesce()
-	e.conn(second).send(openMessageType, e.openBody())
-	e.conn(first).send(keepAliveMessageType, nil)
+	e.conn(second).send(verifMsgOpen, e.openBody())
+	e.conn(first).send(verifMsgKeepalive, nil)
 	verifQuiesce()
 	localDominant := verifOr(e.cfg.localID > e.remoteID, verifAnd(e.cfg.localID == e.remoteID, e.cfg.localAS > e.cfg.remoteAS))
 	keepOut := verifChooseBool(localDominant)
@@ -142,7 +142,7 @@ func Verif_C07_collision_race() {
 	if openOut {
 		surv = out
 	}
-	verifAssert("loser-got-cease", e.conn(other(surv)).lastIsCease())
+	verifAssert("loser-got-cease", e.conn(verifOtherDir(surv)).lastIsCease())
 	verifAssert("at-most-one-established", e.pl.nEstab <= 1 && !e.pl.overlap && !e.pl.badOrder)
 	if surv != domWinner {
 		// only legitimate if it became Established before the collision was resolved
